@@ -313,7 +313,8 @@ def _band_edges(fn, given):
 
 # --------------------------------------------------------------------------------------------------
 def generate(repo):
-    g = Gen('C13', imports=['PrysmVerif.Num', 'PrysmVerif.Model.C13'])
+    g = Gen('C13', imports=['PrysmVerif.Num', 'PrysmVerif.Model.C13'],
+            header='set_option linter.unusedVariables false')
     ifm, _ = load(repo, 'prysm/interferogram.py')
     utl, _ = load(repo, 'prysm/util.py')
     crd, _ = load(repo, 'prysm/coordinates.py')
@@ -321,7 +322,10 @@ def generate(repo):
     # ---- psd: rotations around fft2
     def psd_rots():
         fn = get_def(ifm, 'psd')
-        ft = find_assign(fn, 'ft')
+        fts = find_assigns(fn, 'ft')
+        if len(fts) != 1:
+            raise Untranslatable('the spectrum `ft` is not assigned exactly once')
+        ft = fts[0]
         post, inner = _rot_call(ft)
         if not (isinstance(inner, ast.Call) and ast.unparse(inner.func).split('.')[-1] == 'fft2' and len(inner.args) == 1
                 and not inner.keywords):
